@@ -216,3 +216,5 @@ def _locals_of(P, g, agg_stmt, field):
     op = rv['ops'][rv['fields'].index(field)]
     l = base_local(g, P, op)
     return {l} if l is not None else set()
+    from .server_common import guard_always_disarmed
+    guard_always_disarmed(ctx, 'C11.guard', S)
